@@ -137,6 +137,7 @@ def run(conf, tier, seed, replay=None):
                         "harness": g["pkg"] + ":" + g["test"], "trace_spec": tr["module"],
                         "signature": sig, "first_rejected_event_index": fl["fail_index"],
                         "first_rejected_event": fl["event"], "violated_invariant": fl.get("violated"),
+                        "spec_expected_for_that_event": fl.get("expected"),
                         "segment": fl["segment"]})
                     violations.append((sig, path))
             for sg, c in sorted(sighist.items()):
